@@ -488,7 +488,7 @@ def run_cell(cell, rec, probe=False):
                 rec.count("defensive_probe_cells")
             else:
                 if trec.key_sent:
-                    V("harness-tor-sent-key-despite-discard", {})
+                    rec.count("tor_sent_key_because_discardpk_missing")
                 if held:
                     V("discarded-key-stored", {"moments": held})
                 pk = svc.private_key
